@@ -328,3 +328,10 @@ Fixpoint dedupe_go (l : list defn) (nodes : list (option N)) (mods : list str) :
            end
   end.
 Definition dedupe (l : list defn) : list defn := dedupe_go l [] [].
+
+(* keys the wrapper de-duplicates on (used to state what it guarantees) *)
+Definition nodes_of (l : list defn) : list N :=
+  flat_map (fun x => match d_node x with Some i => [i] | None => [] end) l.
+Definition mod_key (x : defn) : option str := if d_is_module x then d_mpath x else None.
+Definition mods_of (l : list defn) : list str :=
+  flat_map (fun x => match mod_key x with Some p => [p] | None => [] end) l.
